@@ -8,10 +8,10 @@ itself (interpolating forms), weights (x-x_k)/(x_{k+1}-x_k) on a pair of nodes t
 outside the node range must raise an error (both sides); the averaging overloads must reduce to the
 plain ones on the branch where no pair exceeds the scale."""
 from astdb import AnalysisBroken
-from interp import Interp, Obj, Cell, Ptr, Region, Thrown, Unsupported, ITE, Cond
+from interp import Interp, Obj, Cell, Ptr, Region, Thrown, Unsupported, ITE, Cond, Opaque
 from kernels import make_suv, flatten_ite
 from poly import Poly, apply_func
-from stdmodel import make_vector
+from stdmodel import make_vector, vec_parts
 import squidsmodel as sm
 import proxies
 import c02
@@ -198,7 +198,7 @@ def check_interpolating(db, rep):
             else:
                 args = [opc, NRH, Q]
                 if npar in (4, 6):
-                    fb = db.one('SQuIDS', 'squids::SQuIDS::expectationValueDBuffer::expectationValueDBuffer', 1)
+                    fb = db.one('SQuIDS', 'squids::SQuIDS::expectationValueDBuffer::expectationValueDBuffer', 1, lambda g: g['params'][0]['t'] in ('unsigned int', 'const unsigned int'))
                     buf = Cell(Obj('squids::SQuIDS::expectationValueDBuffer', None, 'buf'), None, 0, 'buf')
                     it.call(fb, buf, [NSUN])
                     args.append(buf)
@@ -256,6 +256,48 @@ def check_interpolating(db, rep):
     rep.floor('C.range.both', n_range, 5)
 
 
+def check_range_on_built_grid(db, rep):
+    """the range clause again, with the grid put in place by Set_xrange(a,b,"lin") itself (whatever the solver records about
+    a grid it built - spacing, uniformity - is then in force) and x less than one node spacing outside either end"""
+    from mpmath import mpf
+    unit = db.unit('SQuIDS')
+    fset = db.one('SQuIDS', 'squids::SQuIDS::Set_xrange', 3)
+    specs = [('GetIntermediateState', 2, None), ('GetExpectationValueD', 3, None),
+             ('GetExpectationValueD', 4, lambda f: 'expectationValueDBuffer' in f['params'][3]['t']),
+             ('GetExpectationValueD', 5, None), ('GetExpectationValueD', 6, None)]
+    n = 0
+    for name, npar, pred in specs:
+        f = db.one('SQuIDS', 'squids::SQuIDS::' + name, npar, pred)
+        for label, q, classes in (('half a spacing above the last node', mpf('8.375'), [['a'], ['b'], ['Q']]),
+                                  ('half a spacing below the first node', mpf('0.125'), [['Q'], ['a'], ['b']]),
+                                  ('a tenth of a spacing above the last node', mpf('7.275'), [['a'], ['b'], ['Q']])):
+            n += 1
+            c = Classes(classes)
+            c.witness = {'a': mpf('1.5'), 'b': mpf('7.0'), 'Q': q}  # nodes 1.5, 4.25, 7.0
+            this, hooks, it = setup(db, c)
+            hooks.assume = lambda it_, cond, node: None
+            try:
+                it.call(fset, this, [Poly.var('a'), Poly.var('b'), Opaque('string', 'lin')])
+            except Thrown as t:
+                raise AnalysisBroken('Set_xrange on the concrete instance throws: %s' % t.what)
+            opc, _ = op_cell()
+            args = [NRH, Poly.var('Q')] if name == 'GetIntermediateState' else [opc, NRH, Poly.var('Q')]
+            if npar in (4, 6):
+                fb = db.one('SQuIDS', 'squids::SQuIDS::expectationValueDBuffer::expectationValueDBuffer', 1, lambda g: g['params'][0]['t'] in ('unsigned int', 'const unsigned int'))
+                buf = Cell(Obj('squids::SQuIDS::expectationValueDBuffer', None, 'buf'), None, 0, 'buf')
+                it.call(fb, buf, [NSUN])
+                args.append(buf)
+            if npar in (5, 6):
+                args += [Poly.var('scale'), make_vector('avr', NSUN * (NSUN - 1) // 2, lambda k: 0)]
+            try:
+                it.call(f, this, args)
+                rep.fail('C.range.both', '%s(%d)/grid from Set_xrange/%s' % (name, npar, label), unit.loc(f),
+                         'an x outside [x_first, x_last] raises an error', 'x = %s is answered on the grid 1.5, 4.25, 7.0' % q, f['name'])
+            except Thrown:
+                rep.ok('C.range.both')
+    rep.floor('C.range.built', n, 15)
+
+
 def check_history(db, rep):
     """a query is a function of the solver it is asked of and of its arguments: what the scratch buffer (the explicit one,
     or the per-thread one inside the short overloads) was used for before - by another solver object whose H0 differs,
@@ -288,7 +330,7 @@ def check_history(db, rep):
                 other.value.fields['t_ini'].value = Poly.const(0)
             buf = None
             if npar in (4, 6):
-                fb = db.one('SQuIDS', 'squids::SQuIDS::expectationValueDBuffer::expectationValueDBuffer', 1)
+                fb = db.one('SQuIDS', 'squids::SQuIDS::expectationValueDBuffer::expectationValueDBuffer', 1, lambda g: g['params'][0]['t'] in ('unsigned int', 'const unsigned int'))
                 buf = Cell(Obj('squids::SQuIDS::expectationValueDBuffer', None, 'buf'), None, 0, 'buf')
                 it_b.call(fb, buf, [NSUN])
 
@@ -316,7 +358,38 @@ def check_history(db, rep):
                 detail = '; '.join(rv.diff_terms(want, limit=3)) if isinstance(rv, Poly) else guarded.explain(rv, want)
                 rep.fail('D.history', site, unit.loc(f), 'the value a fresh buffer gives: interpolated state of this solver, H0 of this solver at x',
                          'the answer depends on the earlier use of the buffer: ' + detail[:300], f['name'])
-    rep.floor('D.history', n, 10)
+    # the flags of the averaging overloads are an output of every call: a second query at the same point (another
+    # operator, a fresh flag vector) writes them again
+    for name, npar, pred, kind in specs:
+        if npar not in (5, 6):
+            continue
+        n += 1
+        f = db.one('SQuIDS', 'squids::SQuIDS::' + name, npar, pred)
+        site = '%s/%d/flags after an earlier query of the same solver at the same x' % (name, npar)
+        classes = [[nodes[0]], ['Q']] + [[m] for m in nodes[1:]]
+        this, hooks_a, it_a = setup(db, classes, tag='', statics={})
+        buf = None
+        if npar == 6:
+            fb = db.one('SQuIDS', 'squids::SQuIDS::expectationValueDBuffer::expectationValueDBuffer', 1, lambda g: g['params'][0]['t'] in ('unsigned int', 'const unsigned int'))
+            buf = Cell(Obj('squids::SQuIDS::expectationValueDBuffer', None, 'buf'), None, 0, 'buf')
+            it_a.call(fb, buf, [NSUN])
+        npair = NSUN * (NSUN - 1) // 2
+        try:
+            for rnd in (0, 1):
+                opc, _ = make_suv('op%d' % rnd, NSUN, 'o' if rnd else 'p')
+                avr = make_vector('avr%d' % rnd, npair, lambda k: 7)  # 7: a value no call writes
+                it_a.call(f, this, [opc, NRH, Poly.var('Q')] + ([buf] if buf is not None else []) + [Poly.var('scale'), avr])
+        except Thrown as t:
+            rep.fail('D.history', site, unit.loc(t.node), 'flags written by the call', 'throw: %s' % t.what, f['name'])
+            continue
+        o, reg, cnt = vec_parts(avr)
+        stale = [k for k in range(npair) if reg.cell(k).value == 7]
+        if stale:
+            rep.fail('D.history', site, unit.loc(f), 'every flag of the vector handed to the call is written by it',
+                     'flags %s keep what the caller had in them: the call did not produce them' % stale, f['name'])
+        else:
+            rep.ok('D.history')
+    rep.floor('D.history', n, 12)
 
 
 def run(db, rep, tier):
@@ -327,6 +400,7 @@ def run(db, rep, tier):
     rep.declined += ['numerical value of the trace (rounding)']
     check_node_forms(db, rep)
     check_interpolating(db, rep)
+    check_range_on_built_grid(db, rep)
     check_history(db, rep)
     # the queries turn the stored state back by t - t_ini: the clock must hold the elapsed time (its handling in
     # Evolve is C10's rule D.clock, repeated here), and the averaging overloads must use, in every dimension, the same
